@@ -146,7 +146,10 @@ impl NameCompressor {
                     let use_pos = contents.len() + name.len();
                     let use_pos = use_pos.max(1);
                     if use_pos < 16383 + 253 {
-                        self.last_use[parent as usize] = use_pos as u16;
+                        // Never lower the stamp: a parent has to stay
+                        // above all of its children.
+                        let stamp = &mut self.last_use[parent as usize];
+                        *stamp = (*stamp).max(use_pos as u16);
                     }
                 }
                 None => break,
@@ -314,7 +317,10 @@ impl NameCompressor {
                     let use_pos = contents.len() + name.len();
                     let use_pos = use_pos.max(1);
                     if use_pos < 16383 + 253 {
-                        self.last_use[parent as usize] = use_pos as u16;
+                        // Never lower the stamp: a parent has to stay
+                        // above all of its children.
+                        let stamp = &mut self.last_use[parent as usize];
+                        *stamp = (*stamp).max(use_pos as u16);
                     }
                 }
                 None => break,
